@@ -154,6 +154,11 @@ func (e *executor) checkTx(tx *types.Transaction, index int) error {
 
 	// 转发的交易由主链验证, 平行链忽略基础检查
 	if e.cfg.IsPara() && types.IsForward2MainChainTx(e.cfg, tx) {
+		// 账户黑名单除外: 主链只能看到tx.To(执行器地址), 平行链交易的真实接收方只有平行链执行时才能判定
+		if err := types.CheckTxBlockedAccount(e.cfg, e.height, tx); err != nil {
+			elog.Error("checkTx blocked account", "txhash", common.ToHex(tx.Hash()), "height", e.height, "err", err)
+			return err
+		}
 		return nil
 	}
 	if e.height > 0 && e.blocktime > 0 && tx.IsExpire(e.cfg, e.height, e.blocktime) {
